@@ -16,6 +16,31 @@ impl Adapter {
     }
 }
 
+
+fn build(kv: &Kv, aimd: bool) -> (Arc<dyn RetryBudget>, Option<Arc<AimdBudget>>) {
+    if aimd {
+                    let num = kv.u64("fnum", 1) as f64;
+                    let den = kv.u64("fden", 2) as f64;
+                    let b = Arc::new(AimdBudget::new(
+                        kv.u64("min", 1) as usize,
+                        kv.u64("max", 10) as usize,
+                        kv.u64("dep", 1) as usize,
+                        kv.u64("wd", 1) as usize,
+                        num / den,
+                    ));
+                    (b.clone(), Some(b))
+                } else {
+                    (
+                        Arc::new(TokenBucketBudget::new(
+                            1.0,
+                            kv.u64("max", 10) as usize,
+                            kv.u64("initial", 0) as usize,
+                        )),
+                        None,
+                    )
+                }
+}
+
 impl Mw for Adapter {
     fn arrive(&mut self, _c: usize, _kv: &Kv) -> Option<CallFut> {
         None
@@ -33,26 +58,15 @@ impl Mw for Adapter {
                 let schedule: Vec<usize> =
                     kv.str("s", "").split(',').filter(|x| !x.is_empty()).filter_map(|x| x.parse().ok()).collect();
                 let aimd = self.kv.str("kind", "token") == "aimd";
-                let (budget, aimd_ref): (Arc<dyn RetryBudget>, Option<Arc<AimdBudget>>) = if aimd {
-                    let num = self.kv.u64("fnum", 1) as f64;
-                    let den = self.kv.u64("fden", 2) as f64;
-                    let b = Arc::new(AimdBudget::new(
-                        self.kv.u64("min", 1) as usize,
-                        self.kv.u64("max", 10) as usize,
-                        self.kv.u64("dep", 1) as usize,
-                        self.kv.u64("wd", 1) as usize,
-                        num / den,
-                    ));
-                    (b.clone(), Some(b))
-                } else {
-                    (
-                        Arc::new(TokenBucketBudget::new(
-                            1.0,
-                            self.kv.u64("max", 10) as usize,
-                            self.kv.u64("initial", 0) as usize,
-                        )),
-                        None,
-                    )
+                let kvc = self.kv.clone();
+                let built = std::panic::catch_unwind(std::panic::AssertUnwindSafe(move || build(&kvc, aimd)));
+                let (budget, aimd_ref) = match built {
+                    Ok(x) => x,
+                    Err(_) => {
+                        // the configuration was rejected at construction: there is no budget to exercise
+                        log("construct panic".to_string());
+                        return;
+                    }
                 };
                 let mut bodies: Vec<Box<dyn FnOnce() -> Vec<String> + Send>> = Vec::new();
                 for p in self.progs.iter() {
